@@ -14,6 +14,7 @@
 package simrt
 
 import (
+	"sync/atomic"
 	"fmt"
 	"os"
 	"reflect"
@@ -39,6 +40,7 @@ type Chooser interface {
 // Config configures one simulated run.
 type Config struct {
 	Chooser   Chooser
+	Stop      *atomic.Bool  // optional wall-clock guard set from outside the bubble: once true (and past MaxSteps) the run ends as "budget exhausted"
 	MaxSteps  int           // random-schedule step budget; afterwards a fair round-robin tail
 	FairSteps int           // length of the fair tail; run not finished then => Livelock
 	Horizon   time.Duration // idle time after which blocked tasks are declared deadlocked
@@ -377,7 +379,7 @@ func (s *Sim) controller() {
 		if res.Steps > s.cfg.MaxSteps {
 			s.fair = true
 		}
-		if res.Steps > s.cfg.MaxSteps+s.cfg.FairSteps {
+		if res.Steps > s.cfg.MaxSteps+s.cfg.FairSteps || (s.cfg.Stop != nil && res.Steps > s.cfg.MaxSteps && s.cfg.Stop.Load()) {
 			res.Livelock = true
 			res.StepsSinceProgress = res.Steps - s.lastProgressStep
 			s.describeBlocked("step budget and fair round-robin tail exhausted")
